@@ -172,6 +172,39 @@ func (g *Gen) Cases(e *Entry, k int, emit func(c Case)) (built bool) {
 			}
 		}
 	}
+	// two long strings in one value: every ordered pair of string/bytes fields gets a longer and a shorter
+	// long value whose paddings differ (scratch space shared between the strings of one encoding shows here)
+	isStr := func(fl field) bool {
+		t := st.Field(fl.idx).Type
+		return t.Kind() == reflect.String || (t.Kind() == reflect.Slice && t.Elem().Kind() == reflect.Uint8)
+	}
+	mkStr := func(fl field, n int) reflect.Value {
+		t := st.Field(fl.idx).Type
+		b := bytesPattern(n)
+		for i := range b {
+			b[i] |= 0x80 // never zero, so that stale bytes are visible in padding
+		}
+		if t.Kind() == reflect.String {
+			return reflect.ValueOf(string(b)).Convert(t)
+		}
+		return reflect.ValueOf(b).Convert(t)
+	}
+	for i := 0; i < len(fs); i++ {
+		if !isStr(fs[i]) {
+			continue
+		}
+		for j := i + 1; j < len(fs); j++ {
+			if !isStr(fs[j]) {
+				continue
+			}
+			for _, lp := range [][2]int{{300, 254}, {257, 255}, {65536, 257}, {254, 300}} {
+				c := set(b0, fs[i], mkStr(fs[i], lp[0]))
+				c.Elem().Field(fs[j].idx).Set(mkStr(fs[j], lp[1]))
+				emit(Case{ID: fmt.Sprintf("%s|B0|%s=long%d,%s=long%d", name, fs[i].name, lp[0], fs[j].name, lp[1]),
+					Field: fs[i].name + "+" + fs[j].name, Shape: fmt.Sprintf("long%d+long%d", lp[0], lp[1]), V: c, Devs: 2})
+			}
+		}
+	}
 	if k >= 2 {
 		for i := 0; i < len(fs); i++ {
 			for j := i + 1; j < len(fs); j++ {
